@@ -27,7 +27,9 @@ CONSTANTS
   \* the mechanisms of the code; all TRUE is the code as written, one FALSE is a control (must violate)
   ResetProvides,     \* Shared::reset re-provides the buffer (ctrl.reset)
   TakeEmptiesSlot,   \* Shared::take leaves None in the slot
-  DropReturnsQueued  \* dropping an op returns the buffers of its queued multishot results (BufferGuard)
+  DropReturnsQueued, \* dropping an op returns the buffers of its queued multishot results (BufferGuard)
+  \* recorded defect of the code (TRUE = the code as written), see KeyRefcountRace
+  KeyRaceDev
 
 Bufs  == 0..(N-1)
 NoBuf == N
@@ -36,9 +38,9 @@ Hs    == 1..MaxH
 VARIABLES
   slot,      \* [Bufs -> BOOLEAN]  TRUE = Some(ptr) in Inner::bufs
   provided,  \* Seq(Bufs): ring entries between kernel head and tail / fallback queue, oldest first
-  mem,       \* [Bufs -> {"live","freed","double"}] allocation state of the buffer memory
+  mem,       \* [Bufs -> {"live","freed","double","lost"}] allocation state of the buffer memory
   alive,     \* poolAlive: FALSE after Proactor drop (BufferPoolRoot::release + Rc dropped)
-  ost,       \* [Ops -> {"idle","armed","done","zombie","orphan"}]
+  ost,       \* [Ops -> {"idle","armed","done","zombie","orphan","orphan_pool"}]
   okind,     \* [Ops -> {"single","multi"}]
   ink,       \* [Ops -> BOOLEAN] the kernel / reactor still owns the request (no final completion posted)
   creq,      \* [Ops -> BOOLEAN] cancellation requested
@@ -313,6 +315,10 @@ AdoptAndFree(o) ==
 (* ---- Proactor drop ------------------------------------------------------- *)
 (* release(): ring unregistered, every buffer still in its slot is deallocated, the slot vector emptied;
    then the driver drops its operations. Ops whose key the user still holds survive as orphans. *)
+(* polling driver: the read of a regular file runs on the thread pool; its completion entry has not reached
+   the driver yet *)
+JobInPool(o) == Kind = "fallback" /\ o \in FileOps /\ ink[o]
+
 PoolRelease ==
   /\ alive
   /\ alive' = FALSE
@@ -323,7 +329,8 @@ PoolRelease ==
      IN mem' = [b \in Bufs |-> IF b \in inSlots \/ b \in zrefs
                                  THEN (IF mem[b] = "live" /\ ~(b \in inSlots /\ b \in zrefs) THEN "freed" ELSE "double")
                                  ELSE mem[b]]
-  /\ ost' = [o \in Ops |-> IF ost[o] \in {"armed", "done"} THEN "orphan" ELSE "idle"]
+  /\ ost' = [o \in Ops |-> IF ost[o] \in {"armed", "done"}
+                             THEN (IF JobInPool(o) THEN "orphan_pool" ELSE "orphan") ELSE "idle"]
   /\ ink' = [o \in Ops |-> FALSE]
   /\ creq' = [o \in Ops |-> FALSE]
   /\ fresh' = [o \in Ops |-> FALSE]
@@ -334,10 +341,21 @@ PoolRelease ==
   /\ UNCHANGED <<okind, pend, eof, hand>>
 
 KeyDropAfterRelease(o) ==
-  /\ ~alive /\ ost[o] = "orphan"
+  /\ ~alive /\ ost[o] \in {"orphan", "orphan_pool"}
   /\ DropBufs(Adopted(o), <<>>)
   /\ ClearOp(o, "idle")
   /\ UNCHANGED <<alive, pend, eof, hand>>
+
+(* NAMED DEVIATION (known finding C07-key-refcount-race). The driver is gone, so the pool thread's
+   `completed.send(Entry)` fails and the entry - a reference to the op - is dropped on the pool thread. The
+   reference count of the op is a thin_cell::unsync (non-atomic) counter: when the user drops the key at the
+   same moment one decrement is lost, the op is never dropped and its BufferRef never frees the buffer. *)
+KeyRefcountRace(o) ==
+  /\ KeyRaceDev
+  /\ ~alive /\ ost[o] = "orphan_pool" /\ obuf[o] # NoBuf
+  /\ mem' = [mem EXCEPT ![obuf[o]] = "lost"]
+  /\ ClearOp(o, "idle")
+  /\ UNCHANGED <<slot, provided, alive, pend, eof, hand>>
 
 HandleDropAfterRelease(h) ==
   /\ ~alive /\ hand[h] # NoBuf
@@ -349,7 +367,7 @@ HandleDropAfterRelease(h) ==
 Kernel(o) == KernelSelect(o) \/ KernelNoBufs(o) \/ KernelArm(o) \/ KernelEof(o) \/ KernelCancel(o)
 Driver(o) == PushMultishot(o) \/ Adopt(o) \/ AdoptAndFree(o)
 User(o) == SubmitManaged(o) \/ SubmitMulti(o) \/ ExhaustedAtSubmit(o) \/ YieldQueued(o) \/ YieldHandle(o)
-           \/ Exhausted(o) \/ NextEnd(o) \/ Cancel(o) \/ KeyDropAfterRelease(o)
+           \/ Exhausted(o) \/ NextEnd(o) \/ Cancel(o) \/ KeyDropAfterRelease(o) \/ KeyRefcountRace(o)
 Env(o) == Feed(o) \/ Close(o)
 
 Next ==
@@ -364,7 +382,7 @@ FairSpec == Spec /\ \A o \in Ops : WF_vars(Kernel(o)) /\ WF_vars(Driver(o))
 TypeOK ==
   /\ slot \in [Bufs -> BOOLEAN]
   /\ \A i \in 1..Len(provided) : provided[i] \in Bufs
-  /\ \A o \in Ops : ost[o] \in {"idle", "armed", "done", "zombie", "orphan"} /\ pend[o] \in 0..MaxPend
+  /\ \A o \in Ops : ost[o] \in {"idle", "armed", "done", "zombie", "orphan", "orphan_pool"} /\ pend[o] \in 0..MaxPend
   /\ \A h \in Hs : hand[h] \in Bufs \cup {NoBuf}
 
 (* every party that holds buffer b, with multiplicity *)
@@ -388,7 +406,9 @@ Quiet == (\A o \in Ops : ost[o] = "idle") /\ (\A h \in Hs : hand[h] = NoBuf)
 Conservation == alive /\ Quiet => Len(provided) = N /\ Range(provided) = Bufs
 NoDoubleFree == \A b \in Bufs : mem[b] # "double"
 LiveWhileAlive == alive => \A b \in Bufs : mem[b] = "live"
-ReleasedAllFreed == ~alive /\ Quiet => \A b \in Bufs : mem[b] = "freed"
+ReleasedAllFreedStrict == ~alive /\ Quiet => \A b \in Bufs : mem[b] = "freed"
+(* modulo the recorded deviation: only KeyRefcountRace loses a buffer *)
+ReleasedAllFreed == ~alive /\ Quiet => \A b \in Bufs : mem[b] \in {"freed", "lost"}
 HeldIsLive == \A h \in Hs : hand[h] # NoBuf => mem[hand[h]] = "live"
 (* exhaustion is an action of the kernel / constructor, never a disabled request *)
 NoStuck == \A o \in Ops : alive /\ ink[o] /\ (pend[o] > 0 \/ AtEnd(o)) /\ ~(Kind = "fallback" /\ creq[o] /\ o \notin FileOps)
@@ -396,6 +416,8 @@ NoStuck == \A o \in Ops : alive /\ ink[o] /\ (pend[o] > 0 \/ AtEnd(o)) /\ ~(Kind
 
 Safe == /\ TypeOK /\ ExclusiveOwner /\ SlotMeaning /\ ProvidedIsPool /\ NoAlias /\ Conservation
         /\ NoDoubleFree /\ LiveWhileAlive /\ ReleasedAllFreed /\ HeldIsLive /\ NoStuck
+
+SafeStrict == Safe /\ ReleasedAllFreedStrict
 
 (* no hang: a request with readable data (or at end of data) gets a result - a buffer or an error - whatever
    the number of free buffers; a cancelled request is reaped *)
